@@ -23,6 +23,9 @@ Definition expected_skeletons : list (string * string * list string) :=
 
 Definition expected_wrappers : list (string * string * list string) :=
 %s
-''' % (grab('skeletons'), grab('wrappers'))
+
+Definition expected_mem_sites : list (string * string * list string) :=
+%s
+''' % (grab('skeletons'), grab('wrappers'), grab('mem_sites'))
 open(os.path.join(root, 'coq', 'theories', 'Skeleton.v'), 'w').write(out)
 print('Skeleton.v written')
